@@ -1,2 +1,45 @@
-(** C09 placeholder *)
-From GoSh Require Import Base.Bytes.
+(** C09 — Layout is inert: blanks, comments and line continuations do not change meaning.
+    Character level: the model of what the scanner does with the text between two tokens
+    (Lex/Layout.v: the blank / newline / comment cases of scanRawToken, the line continuation, and
+    linebreak()), tied to the lexer on every run by all strings over the layout alphabet in argument
+    position and after && || |.  The theorems quantify over every layout of the stated shape and
+    every following text.  That the tokens themselves are scanned alike in every layout, and the
+    newline-for-semicolon exchange, are decided by the metamorphic checks, not proved. *)
+From GoSh Require Import Base.Bytes Lex.Layout.
+
+(** Any mixture of blanks, tabs and backslash-newline between two tokens of a line only separates
+    them (or, without a blank, joins them as the continuation of one word); nothing is lost or added. *)
+Theorem C09_blanks_and_continuations_only_separate :
+  forall l rest, forallb inl_ok l = true -> token_start rest = true ->
+    scan_gap (inls_text l ++ rest) = ((if has_blank l then GBlank else GJoin), rest).
+Proof. exact inline_layout_inert. Qed.
+Print Assumptions C09_blanks_and_continuations_only_separate.
+
+(** A comment before the newline, any number of blank lines and comment lines after it, and the
+    indentation of the next line end the line and are returned once, in order, with their text. *)
+Theorem C09_comment_and_blank_lines_end_the_line :
+  forall l c ls bs rest,
+    forallb inl_ok l = true -> forallb (fun x => negb (x =? 10)%N) c = true ->
+    forallb lline_ok ls = true -> forallb is_blank bs = true -> line_start rest = true ->
+    scan_gap (inls_text l ++ 35%N :: c ++ 10%N :: llines_text ls ++ bs ++ rest) = (GLine (c :: llines_comments ls), rest).
+Proof. exact line_layout_inert. Qed.
+Print Assumptions C09_comment_and_blank_lines_end_the_line.
+
+Theorem C09_blank_lines_are_skipped :
+  forall l ls bs rest,
+    forallb inl_ok l = true -> forallb lline_ok ls = true -> forallb is_blank bs = true -> line_start rest = true ->
+    scan_gap (inls_text l ++ 10%N :: llines_text ls ++ bs ++ rest) = (GLine (llines_comments ls), rest).
+Proof. exact newline_layout_inert. Qed.
+Print Assumptions C09_blank_lines_are_skipped.
+
+(** Where the grammar allows a line break (after && || |): blank lines, comment lines, then blanks
+    and line continuations are skipped, the comments are returned, the command goes on at the next
+    token.  The shape excludes a continuation directly followed by an empty line (known finding F45,
+    which the model exhibits: see Layout.layout_examples). *)
+Theorem C09_line_break_after_an_operator :
+  forall ls bs l rest,
+    forallb lline_ok ls = true -> forallb is_blank bs = true -> forallb inl_ok l = true -> token_start rest = true ->
+    match l with IBlank _ :: _ => False | _ => True end ->
+    scan_linebreak (llines_text ls ++ bs ++ inls_text l ++ rest) = LOk (llines_comments ls) rest.
+Proof. exact linebreak_layout_inert. Qed.
+Print Assumptions C09_line_break_after_an_operator.
